@@ -36,7 +36,7 @@ CLAIMED = {
          "Same mapping/store assumptions as C01; A-REAL.",
          "DESIGN 4 C11"),
  "C12": ("GetCount = zero weight + both totals, IsEmpty iff that is 0, GetMin/MaxValue pick the extreme non-empty bin (0 for the zero bucket, error iff empty), GetValuesAtQuantiles fails exactly when a single query would and otherwise returns one answer per quantile, all proved for all inputs; queries leave the abstract state unchanged.",
-         "DDSketch.ForEach / GetSum (nested callbacks) are not under contract; monotonicity in q and alpha-accuracy of the extremes follow from the quantile contract by code-independent lemmas (not machine-checked).",
+         "DDSketch.ForEach and GetSum are proved for the stop protocol (f is never called again after asking to stop, only with positive weights) and purity; which (value, weight) pairs they produce - hence the value of GetSum - is not restated at sketch level; monotonicity in q and alpha-accuracy of the extremes follow from the quantile contract by code-independent lemmas (not machine-checked).",
          "DESIGN 4 C12"),
  "C13": ("Rejection postconditions taken from the statement, proved over extended reals (NaN, +-Inf): AddWithCount of both variants returns ErrNegativeCount / ErrUntrackableNaN / TooHigh / TooLow exactly as documented and otherwise nil, quantile queries reject every q that is not in [0,1] (NaN included) and empty sketches, MergeWith with a different mapping and Reweight(w<=0) are refused; a refused call leaves the abstract state unchanged. Two genuine defects found and fixed (NaN quantile accepted; exact variant accepted invalid values with weight 0).",
          "Mapping constructors' refusals (base <= 1, accuracy outside (0,1)) are proved; NewBin and the store constructors with bin limits are not under contract. Weights/factors are assumed finite (NaN weights are outside the documented contract).",
